@@ -453,7 +453,7 @@ TRACE_MODULE.update({"C01": "Trace_Pkg", "C16": "Trace_Pkg", "C09": "Trace_Pkg",
 def c01(ck):
     binary = vlib.build_harness()
     thorough = ck.tier == "thorough"
-    events = run_pkg(ck, binary, ["--families", "assets,built,mutants,gen", "--n", 60 if thorough else 15,
+    events = run_pkg(ck, binary, ["--families", "assets,built,mutants,gen,slack", "--n", 60 if thorough else 15,
                                   "--mutants", 60000 if thorough else 1500, "--gets", "0",
                                   "--maxbytes", 400000 if thorough else 65536],
                      own=("C01:",), gen_cfg="Gen_Hdr_thorough.cfg" if thorough else "Gen_Hdr_quick.cfg")
@@ -529,7 +529,7 @@ def c05(ck):
 def c09(ck):
     binary = vlib.build_harness()
     thorough = ck.tier == "thorough"
-    events = run_pkg(ck, binary, ["--families", "assets,built", "--n", 400 if thorough else 80, "--gets", "0",
+    events = run_pkg(ck, binary, ["--families", "assets,built,slack", "--n", 400 if thorough else 80, "--gets", "0",
                                   "--maxbytes", 400000 if thorough else 65536],
                      own=("C09:",))
     pkg_stats(ck, events)
